@@ -11,7 +11,7 @@ import ast
 from typing import Callable, Dict, List, Optional, Tuple
 
 from ..cfg import CFG
-from ..core import (AnalysisError, FuncInfo, FUNC_TYPES, _block_of, ancestors, ap, call_attr, calls, enclosing_stmt,
+from ..core import (AnalysisError, FuncInfo, FUNC_TYPES, _block_of, ancestors, ap, atoms, call_attr, calls, enclosing_stmt,
                     facts, find_calls, is_none_test, norm, parent, paths_in, stores, walk)
 from .common import (callers_of, guarded_catch_all, inline_self_calls, must_pass, normal_path, origin, single_def,
                      where_of, writers_of)
@@ -360,6 +360,32 @@ def r2(ctx):
         ctx.ob("C14.R2", f"{WM}._kill_object_by_local_id: untrack_object({o}) paired with removal of "
                          f"_fullid_lookup[{o}.FullID]", ok, k.w(c),
                "killed object stays reachable by full id", k.describe(after))
+
+
+def r2_kill_blocks(ctx):
+    """Every ObjectData block of a KillObject is applied (no path of an iteration skips the kill)."""
+    h = Fn(ctx, f"{WM}._handle_kill_object")
+    kcs = find_calls(h.tree, "_kill_object_by_local_id", into_defs=False)
+    loops = []
+    for c in kcs:
+        lp = next((a for a in ancestors(c) if isinstance(a, (ast.For, ast.AsyncFor))), None)
+        if lp is not None and isinstance(lp.target, ast.Name) and len(c.args) >= 2 \
+                and lp.target.id in {n.id for n in ast.walk(origin(h.tree, c.args[1])) if isinstance(n, ast.Name)} \
+                and lp not in loops:
+            loops.append(lp)
+    msgpar = h.params[1] if len(h.params) > 1 else None
+    loops = [lp for lp in loops if msgpar in {n.id for n in ast.walk(lp.iter) if isinstance(n, ast.Name)}]
+    ctx.ob("C14.R2", f"{WM}._handle_kill_object kills per block of the message", len(loops) == 1, h.fi.where,
+           f"found {len(loops)} loop(s) over the message's blocks calling _kill_object_by_local_id(<state>, <block id>)")
+    for lp in loops:
+        wit = must_pass(h.cfg, h.cfg.nodes_for(lp))
+        ctx.ob("C14.R2", f"{WM}._handle_kill_object reaches the kill loop on every normal path", wit is None, h.w(lp),
+               "a KillObject message can be dropped as a whole", h.describe(wit))
+        cs = [c for c in kcs if any(a is lp for a in ancestors(c))]
+        wit = body_must_pass(h, lp, [n for c in cs for n in h.nodes(c)])
+        ctx.ob("C14.R2", f"{WM}._handle_kill_object applies the kill for every block", wit is None, h.w(lp),
+               "some iteration skips _kill_object_by_local_id: the killed object (its descendants, orphans and pending "
+               "requests) stays in the region state that belongs to the sending circuit", h.describe(wit))
 
 
 def _removals(fn: Fn, field_suffix: str, key_path: str):
@@ -777,6 +803,9 @@ def r5(ctx):
     hvars = set()
     for lp in [n for n in walk(nt.node) if isinstance(n, ast.For) and (ap(strip_copy(lp_iter(n))[0]) or "").endswith(".subscribers")]:
         hvars.add(ap(lp.target))
+        if isinstance(lp.target, (ast.Tuple, ast.List)) and lp.target.elts:
+            hvars.add(ap(lp.target.elts[0]))    # `for handler, args, ... in self.subscribers[:]`
+        hvars.discard(None)
         for s in stores(lp, into_defs=False):
             if isinstance(s.node, ast.Assign) and isinstance(s.node.targets[0], ast.Tuple) and ap(s.node.value) in hvars \
                     and s.node.targets[0].elts and s.target is s.node.targets[0].elts[0]:
@@ -964,9 +993,47 @@ def r6(ctx):
     ctx.floor("C14.R6", "link calls examined for ordering", nlinks, 2)
 
 
+# --------------------------------------------------------------------------- R7
+
+def r7(ctx):
+    """Load-once latches of the per-region object manager are released by teardown."""
+    repo = ctx.repo
+    ctx.rule("C14.R7", "teardown releases load-once latches: a flag that makes a loader of the region object manager "
+                       "return early once set is reset by clear() on every normal path (else state of the previous "
+                       "incarnation of the region is served after teardown)")
+    ci = repo.cls("ProxyObjectManager", POM)
+    latches = []
+    for mname, mfi in sorted(ci.methods.items()):
+        if mname in ("__init__", "clear"):
+            continue
+        sets = {s.path for s in stores(mfi.node, into_defs=False) if s.kind == "assign" and s.path.startswith("self.")
+                and isinstance(s.value, ast.Constant) and s.value.value is True}
+        if not sets:
+            continue
+        for st in mfi.node.body:
+            if isinstance(st, ast.If) and not st.orelse and st.body and isinstance(st.body[-1], ast.Return):
+                # the loader proceeds past the guard only while self.F is falsy
+                reads = {ap(e) for e, pol in atoms(st.test, False) if isinstance(e, ast.Attribute) and not pol}
+                for f_ in sorted(sets & reads):
+                    latches.append((mfi, f_, st))
+    ctx.floor("C14.R7", "load-once latches in ProxyObjectManager", len(latches), 1)
+    clr = Fn(ctx, "ProxyObjectManager.clear", POM)
+    for mfi, field, guard in latches:
+        resets = [n for s in stores(clr.tree, into_defs=False)
+                  if s.kind == "assign" and s.path == field and isinstance(s.value, ast.Constant) and not s.value.value
+                  for n in clr.nodes(s.node)]
+        wit = must_pass(clr.cfg, resets)
+        ctx.ob("C14.R7", f"ProxyObjectManager.clear resets {field} (latch of {mfi.name})", bool(resets) and wit is None,
+               clr.fi.where, f"{mfi.name} returns early while {field} is set and sets it itself; clear() does not "
+                             f"reset it on every path, so after region teardown {mfi.name} is a no-op and what it "
+                             f"loaded for the previous incarnation keeps being used", clr.describe(wit))
+
+
 def run(ctx):
     r1(ctx)
     r2(ctx)
+    r2_kill_blocks(ctx)
+    r7(ctx)
     r3(ctx)
     r4(ctx)
     r5(ctx)
